@@ -17,6 +17,7 @@ def register(reg):
     register_formats(reg)
     register_docs(reg)
     register_seq(reg)
+    register_ns(reg)
     register_keyfile_path(reg)
     register_stubs(reg)
     register_hash(reg)
@@ -291,6 +292,15 @@ def register_keyfile_path(reg):
     def default_keyfile_path(ex, st, args, cx):
         """Config.DEFAULT_CINCOKEY_FILEPATH: a class constant computed at import time (expanduser('~') + '/.cincokey')"""
         return ex.o.str_(z3.String("DEFAULT_CINCOKEY_FILEPATH"))
+
+
+def register_ns(reg):
+    @reg.specfun("ns_dict")
+    def ns_dict(ex, st, args, cx):
+        """vars(namespace): the attribute map of an argparse.Namespace"""
+        d = st.rd("$ns", ex.o.r(args[0]))
+        st.assume(ex.w.isinstance_(d, "dict"))
+        return SV(d, "ref:dict")
 
 
 def register_seq(reg):
